@@ -198,7 +198,10 @@ def classify(res):
 def observe(cmd, secret, host, cookie, frame, evalex, pin_on):
     rig = Rig(evalex, pin_on)
     path, q = rig.build_query(cmd, secret, frame)
-    return classify(rig.request(path, q, host, cookie))
+    try:
+        return classify(rig.request(path, q, host, cookie))
+    except Exception:  # an escaping exception is "any other failure": recorded, not fatal for the table
+        return OUT_ODD
 
 
 def lean_chars(s):
